@@ -534,11 +534,12 @@ def is_needed_rules(prog, an, rep):
                       'behind its target forces the queue', f.where(lp),
                       'the loop continues when an integration branch does '
                       'not contain its destination tip')
-        it = src(lp.iter)
-        ok_it = isinstance(lp.iter, ast.Call) and \
-            src(lp.iter.func) == 'zip' and len(lp.iter.args) == 2 and \
-            src(lp.iter.args[0]) == f.params[1] and \
-            src(lp.iter.args[1]) == f.params[0] + \
+        lit = substitute_locals(f, lp.iter)
+        it = src(lit)
+        ok_it = isinstance(lit, ast.Call) and \
+            src(lit.func) == 'zip' and len(lit.args) == 2 and \
+            src(lit.args[0]) == f.params[1] and \
+            src(lit.args[1]) == f.params[0] + \
             '.git.cascade.dst_branches'
         rep.check(ok_it, R, f.qname + ': loop pairs the whole wbranches '
                   'with the whole cascade (branch n with target n)',
